@@ -141,7 +141,7 @@ func startEnv(out string) *env {
 	e.l = l
 	// test aid for seeded mutations of /repo: where the decoy listens
 	os.Setenv("C15_DECOY_PORT", fmt.Sprint(e.ports[pDecoy]))
-	e.h = &httpEnv{l: l, be: e.httpBE, port: 8080, portNP: e.ports[pNP], decoy: e.decoy, idleDur: 600 * time.Millisecond}
+	e.h = &httpEnv{l: l, be: e.httpBE, port: 8080, portNP: e.ports[pNP], decoy: e.decoy, idleDur: 2500 * time.Millisecond}
 	return e
 }
 
